@@ -291,3 +291,16 @@ prop("C15", level="exploration", bounded=True,
      note="Exploration level. Metrics' dictionaries are outside pyvc's heap model; incCount is a trusted abstraction cross-checked at run time here.",
      also=["Payload.__add__", "Payload.__radd__", "Payload.__mul__", "Payload.__rmul__", "Payload.__iadd__", "Payload.__imul__", "Payload.__ilshift__"],
      trusted_base=["Metrics.incCount ghost-counter abstraction"])
+
+prop("C16", level="exploration", bounded=True,
+     technique="bounded: every trace of generated loop nests compared row by row with an independent re-execution on plain lists",
+     text="Bounded (not proved): seeded random 2-level loop nests over 3x3 operands (rows absent, empty, or holding explicit zeros): plain iteration, "
+          "two-operand intersection at both ranks, populate at both ranks, with every trace type registered (iter, intersect_i, populate_i, "
+          "populate_read_i / populate_write_i). Checked per trace: header == loop ranks down to the traced rank; every row has the header's width; "
+          "iteration stamps lexicographically non-decreasing (strictly increasing for iter traces); rows == the accesses of an independent re-execution "
+          "of the nest on plain lists, in order, with the coordinates of the element touched and its index in the fiber it was read from (destination-"
+          "side populate traces: stamp order only, as the statement allows); identical files at flush thresholds 2, 3 and 1000; consumable traces "
+          "deliver the same rows. No deductive part: Metrics keeps its state in nested dictionaries and tuples of lists, and trace well-formedness "
+          "across a nest of generators is a history property of the calling protocol, not of one function.",
+     note="Exploration level. Known finding: intersect_i positions count presented elements, not fiber indices, when empty elements are stored before.",
+     trusted_base=[])
